@@ -376,6 +376,8 @@ class HTTP(BaseComponent):
                 res.body = value.value
                 self.fire(response(res))
             elif value.errors:
+                # answered here; the ``exception`` event of the same failure follows
+                req.handled = True
                 error = value.value
                 _etype, evalue, _traceback = error
                 if isinstance(evalue, RedirectException):
@@ -393,6 +395,8 @@ class HTTP(BaseComponent):
                 value.event = e
                 value.notify = True
         elif isinstance(value, tuple):
+            # answered here; the ``exception`` event of the same failure follows
+            req.handled = True
             _etype, evalue, _traceback = error = value
 
             if isinstance(evalue, RedirectException):
